@@ -1,6 +1,6 @@
 From Coq Require Import List NArith Bool.
 Import ListNotations.
-Require Import MV.C15.Model MV.C15.Spec MV.C15.Exec MV.C15.ProofsHist MV.C15.ProofsDist MV.C15.ExecProofs.
+Require Import MV.C15.Model MV.C15.Spec MV.C15.Exec MV.C15.ProofsHist MV.C15.ProofsDist MV.C15.ProofsRoll MV.C15.ProofsPrec MV.C15.ExecProofs.
 Open Scope N_scope.
 Require Import MV.C15.Properties.
 
@@ -34,27 +34,38 @@ Check (C15_batch_equals_single : forall (O : FloatOps),
   h_buckets O (hfinal O h0 ops1) = h_buckets O (hfinal O h0 ops2)
   /\ h_count O (hfinal O h0 ops1) = h_count O (hfinal O h0 ops2)).
 Print Assumptions C15_batch_equals_single.
-Check (C15_spec_ok_on_model_partial : forall (O : FloatOps),
+Check (C15_spec_ok_on_model : forall (O : FloatOps),
   (forall a b c : F O, fle O a b = true -> fle O b c = true -> fle O a c = true) ->
   (forall a : F O, fsame O a a = true) ->
-  forall bounds ops, gspec_ok O (CHist O bounds ops) (grun_case O (CHist O bounds ops)) = true).
-Print Assumptions C15_spec_ok_on_model_partial.
+  forall c, gwf O c = true -> gspec_ok O c (grun_case O c) = true).
+Print Assumptions C15_spec_ok_on_model.
+Check (C15_spec_ok_sound_dist : forall (O : FloatOps) fixed san global name ovs ty d,
+  gspec_ok O (CDist O fixed san global name ovs) (ODist O ty d) = true ->
+  optb_same O d (spec_choice O san global name ovs) = true
+  /\ (ty = true <-> d <> None)).
+Print Assumptions C15_spec_ok_sound_dist.
 Check (C15_spec_ok_sound_hist : forall (O : FloatOps) bounds done cs cnt sm,
   snap_ok O bounds done (cs, cnt, sm) = true ->
   cnt = N.of_nat (length (all_samples O done))
   /\ fsame O sm (spec_sum O done) = true
   /\ (ascending O bounds = true -> cs = map (fun b => count_le O b (all_samples O done)) bounds)).
 Print Assumptions C15_spec_ok_sound_hist.
-Check (C15_override_precedence_partial : forall (O : FloatOps) fixed san global ovs name,
-  match get_distribution O (db_new O fixed san global ovs) name with
-  | Some b =>
-      (exists m, In (m, b) (held O fixed san ovs) /\ matches fixed m name = true /\
-                 forall x, In x (held O fixed san ovs) -> matches fixed (fst x) name = true ->
-                           mrank (fst m) <= mrank (fst (fst x)))
-      \/ ((forall x, In x (held O fixed san ovs) -> matches fixed (fst x) name = false) /\ global = Some b)
-  | None => (forall x, In x (held O fixed san ovs) -> matches fixed (fst x) name = false) /\ global = None
-  end).
-Print Assumptions C15_override_precedence_partial.
+Check (C15_override_model_meets_spec : forall (O : FloatOps) san global name ovs,
+  get_distribution O (db_new O true san global ovs) (eff_key san name) = spec_choice O san global name ovs).
+Print Assumptions C15_override_model_meets_spec.
+Check (C15_override_precedence : forall (O : FloatOps) san global name ovs,
+  let d := get_distribution O (db_new O true san global ovs) (eff_key san name) in
+  ((exists o, In o ovs /\ applies san (fst o) name = true) ->
+     exists o, In o ovs /\ applies san (fst o) name = true
+               /\ (forall o', In o' ovs -> applies san (fst o') name = true ->
+                     matcher_cmp (eff_matcher san (fst o)) (eff_matcher san (fst o')) <> Gt)
+               /\ d = last_bounds O san (eff_matcher san (fst o)) ovs
+               /\ d <> None)
+  /\ ((forall o, In o ovs -> applies san (fst o) name = false) -> d = global)).
+Print Assumptions C15_override_precedence.
+Check (C15_matches_is_applies : forall san m name,
+  matches true (eff_matcher san m) (eff_key san name) = applies san m name).
+Print Assumptions C15_matches_is_applies.
 Check (C15_type_histogram_iff_distribution_histogram : forall (O : FloatOps) (d : dbuilder O) name,
   get_distribution_type O d name = true <-> get_distribution O d name <> None).
 Print Assumptions C15_type_histogram_iff_distribution_histogram.
@@ -64,26 +75,51 @@ Print Assumptions C15_matcher_sound_prefix.
 Check (C15_matcher_sound_full : forall fixed n,
   matches fixed (matcher_sanitized fixed (MFull, n)) (sanitize_name n) = true).
 Print Assumptions C15_matcher_sound_full.
-Check (C15_matcher_sound_suffix_partial : forall pre p, pre <> [] ->
+Check (C15_matcher_sound_suffix : forall pre p,
   matches true (matcher_sanitized true (MSuffix, p)) (sanitize_name (pre ++ p)) = true).
-Print Assumptions C15_matcher_sound_suffix_partial.
+Print Assumptions C15_matcher_sound_suffix.
 Check (C15_matcher_suffix_refuted_before_fix : exists pre p, pre <> [] /\
   matches false (matcher_sanitized false (MSuffix, p)) (sanitize_name (pre ++ p)) = false).
 Print Assumptions C15_matcher_suffix_refuted_before_fix.
 Check (C15_suffix_override_refuted_before_fix : exists c : gcase ZO, (match c with CDist _ fixed _ _ _ _ => fixed = false | _ => False end)
                        /\ gspec_ok ZO c (grun_case ZO c) = false).
 Print Assumptions C15_suffix_override_refuted_before_fix.
+Check (C15_window : forall (O : FloatOps) (n dur : N), 0 < n -> 0 < dur ->
+  forall (hist : list (N * F O)) (now : N),
+  nondecr O 0 hist -> last_time O 0 hist <= now ->
+  let r := radd_all O (rs_new O n dur) hist in
+  (forall v, In v (rs_snapshot O r now) ->
+     exists t, In (t, v) hist /\ fisinf O v = false /\ (dur * n <= now -> now - dur * n < t))
+  /\ (forall t v, In (t, v) hist -> fisinf O v = false -> now + dur <= t + dur * n -> In v (rs_snapshot O r now))
+  /\ (length (must_hold O dur (dur * n) now hist) <= length (rs_snapshot O r now))%nat
+  /\ (length (rs_snapshot O r now) <= length (may_hold O (dur * n) now hist))%nat
+  /\ r_count O r = N.of_nat (length hist)
+  /\ N.of_nat (length (r_buckets O r)) <= n
+  /\ descN dur (begins O (r_buckets O r))).
+Print Assumptions C15_window.
+Check (C15_window_truncate_never_evicts : forall (O : FloatOps) (n dur : N), 0 < n -> 0 < dur ->
+  forall (hist : list (N * F O)) (now : N) (v : F O),
+  nondecr O 0 hist -> last_time O 0 hist <= now ->
+  let r := radd_all O (rs_new O n dur) hist in
+  try_add O (r_dur O r) v now (r_buckets O r) = None ->
+  let kept := filter (unexpired O (r_maxdur O r) now) (r_buckets O r) in
+  firstn (N.to_nat (r_max O r - 1)) kept = kept).
+Print Assumptions C15_window_truncate_never_evicts.
+Check (C15_window_invariant : forall (O : FloatOps) (n dur : N), 0 < n -> 0 < dur ->
+  forall l past la r, params_ok O n dur r -> WInv O n dur past la (r_buckets O r) -> nondecr O la l ->
+  params_ok O n dur (radd_all O r l) /\ WInv O n dur (past ++ l) (last_time O la l) (r_buckets O (radd_all O r l))).
+Print Assumptions C15_window_invariant.
 Check (C15_window_count_counts_all : forall (O : FloatOps) ops r,
   r_count O (rfinal O r ops) = r_count O r + adds O ops).
 Print Assumptions C15_window_count_counts_all.
-Check (C15_window_snapshot_merges_unexpired_partial : forall (O : FloatOps) (r : rsum O) now v,
+Check (C15_window_snapshot_merges_unexpired : forall (O : FloatOps) (r : rsum O) now v,
   In v (rs_snapshot O r now) <->
   exists b, In b (r_buckets O r) /\ In v (rb_vals O b) /\
             (r_maxdur O r <= now -> now - r_maxdur O r < rb_begin O b)).
-Print Assumptions C15_window_snapshot_merges_unexpired_partial.
-Check (C15_window_new_bucket_covers_sample_partial : forall dur reftime now, 0 < dur -> reftime <= now ->
+Print Assumptions C15_window_snapshot_merges_unexpired.
+Check (C15_window_new_bucket_covers_sample : forall dur reftime now, 0 < dur -> reftime <= now ->
   next_begin dur reftime now <= now /\ now < next_begin dur reftime now + dur).
-Print Assumptions C15_window_new_bucket_covers_sample_partial.
+Print Assumptions C15_window_new_bucket_covers_sample.
 Check (C15_hypotheses_satisfiable : (forall a b c : F ZO, fle ZO a b = true -> fle ZO b c = true -> fle ZO a c = true)
   /\ (forall a : F ZO, fsame ZO a a = true)
   /\ (forall x : F ZO, fle ZO None x = false)).
